@@ -41,9 +41,14 @@ def applyOp (g : Graph) : TxOp → Graph
   | .setEdgeProp r k v => Spec.updRel g r fun e => { e with props := Spec.setKey e.props k v }
   | .removeEdgeProp r k => Spec.updRel g r fun e => { e with props := Spec.delKey e.props k }
   | .tombstoneNode n => { g with nodes := g.nodes.filter (·.id != n) }
-  | .tombstoneEdge r => { g with rels := g.rels.filter (·.id != r) }
+  -- the storage keeps the property map of a deleted relationship identity (hidden, `mult = 0`); a later
+  -- create_edge of the same (src,type,dst) finds it again (C06: identity = triple, properties never tombstoned)
+  | .tombstoneEdge r => Spec.updRel g r fun e => { e with mult := 0 }
 
 def applyOps (g : Graph) (ops : List TxOp) : Graph := ops.foldl applyOp g
+
+/-- the visible graph: relationship identities with at least one copy -/
+def live (g : Graph) : Graph := { g with rels := g.rels.filter (·.mult > 0) }
 
 /-! ### plan stages (write_compile.rs: one SET clause becomes up to three stages, in this fixed order) -/
 
@@ -370,8 +375,8 @@ def removeLabelsRow (g : Graph) (names : List String) (items : List (String × L
     | none => if u0.row.get x == some .null then pure () else throw .other
   return (s, u)
 
-def attachedOut (g : Graph) (n : Nat) : List RelId := (g.rels.filter (·.id.src == n)).map (·.id)
-def attachedIn (g : Graph) (n : Nat) : List RelId := (g.rels.filter (·.id.dst == n)).map (·.id)
+def attachedOut (g : Graph) (n : Nat) : List RelId := (g.rels.filter fun e => e.id.src == n && e.mult > 0).map (·.id)
+def attachedIn (g : Graph) (n : Nat) : List RelId := (g.rels.filter fun e => e.id.dst == n && e.mult > 0).map (·.id)
 
 /-- create_delete_ops.rs `execute_delete_on_rows` (all rows at once) -/
 def deleteRows (g : Graph) (detach : Bool) (vars : List String) (s : St) (T : List URow) : Except Err St := do
